@@ -24,11 +24,19 @@ def run(c):
         inst += [r.randrange(1, 140000) for _ in range(60)] + [100, 300, 700, 1500, 2000, 5000]
     for runner in ("ptrace", "ns", "container", "container_after"):
         for us in inst:
-            cases.append({"id": len(cases), "kind": runner, "args": ["sleep", "120"], "cancel_us": us, "syncfunc": True})
+            # cancelled early: a long program, so that "promptly" can be a generous bound that a loaded machine meets and a lost
+            # cancellation does not; cancelled around its own end, or not at all: a short one
+            long_prog = 0 <= us <= 60000
+            cases.append({"id": len(cases), "kind": runner, "args": ["sleep", "1500" if long_prog else "120"], "cancel_us": us, "syncfunc": True})
         if runner in ("ptrace", "ns"):
             for us in ([0, 100, 300, 1000, 2000] if c.quick() else [0, 50, 100, 200, 300, 500, 800, 1000, 1500, 2000, 4000]):
                 for rep in range(2 if c.quick() else 6):
                     cases.append({"id": len(cases), "kind": runner, "args": ["sleep", "400"], "cancel_us": us, "nfiles": 9000, "_wide": True})
+    # cancellations that land while the tracer is inside a trap (the program traps continuously; the policy bans or allows the call and
+    # would refuse any path but the probed one): the verdict of a cancelled run is Time Limit Exceeded, nothing about the policy
+    for rep in range(40 if c.quick() else 400):
+        cases.append({"id": len(cases), "kind": "ptrace_busy", "args": ["probe", "3000000", "c11probe"], "policy": "ban" if rep % 2 else "allow",
+                      "cancel_us": r.randrange(1500, 40000), "_busy": True})
     for args, want in ((["exit", "0"], (1, 0)), (["exit", "3"], (7, 3)), (["sig", "11"], (6, 11)), (["sig", "25"], (4, None))):
         for rep in range(2):
             cases.append({"id": len(cases), "kind": "late_cancel", "args": args, "_want": want})
@@ -59,6 +67,12 @@ def run(c):
             c.finding_or_violation(canon("the run did not return within 10 s"), {"case": x})
             continue
         st = o["status"]
+        if x.get("_busy"):
+            c.count(("busy", x["policy"], x["cancel_us"]), nontrivial=True, klass="busy-trap:" + x["policy"])
+            if st != 2 or o["us"] > x["cancel_us"] + 1000000:
+                c.finding_or_violation({"kind": "cancel", "what": "a run cancelled while its tracer handles a trap does not end as Time Limit Exceeded", "policy": x["policy"],
+                                        "status": st, "error": o["errmsg"][:60]}, {"case": x, "observed": o}, klass="busy:%s:%d" % (x["policy"], st))
+            continue
         if kind == "late_cancel":
             c.count(("late", tuple(x["args"])), klass="late-cancel")
             ws, we = x["_want"]
@@ -80,7 +94,8 @@ def run(c):
         else:
             # cancelled well before the program's own end: it must not be allowed to run to completion
             if us + 60000 < prog_ms * 1000:
-                if st != 2 or elapsed > us + 60000 + (150000 if x.get("nfiles") else 0):
+                bound = us + (500000 if prog_ms >= 1000 else 60000) + (150000 if x.get("nfiles") else 0)
+                if st != 2 or elapsed > bound:
                     c.finding_or_violation(canon("the cancellation was lost or late", status=st, elapsed_us=elapsed),
                                            {"case": x, "observed": o}, klass="lost:%s" % kind)
             if elapsed > prog_ms * 1000 + 400000:
